@@ -309,7 +309,7 @@ def h_var(na, n_wav, filter_idx, beyond=False):
 def configs(tier, seed):
     q = tier == 'quick'
     cfgs = []
-    for na in ((2, 3, 4) if q else (2, 3, 4, 5, 6)):
+    for na in ((2, 3, 4) if q else (2, 3, 4, 5, 6, 8)):
         cfgs.append(Config('conv na=%d nm=%d nreq=2 AU' % (na, 2 if na < 4 else 1), h_conv(na, 2 if na < 4 else 1, 2), 3000))
     cfgs.append(Config('conv na=3 nm=1 nreq=2 request in pc', h_conv(3, 1, 2, 'pc'), 3000))
     cfgs.append(Config('conv na=2 nm=1 nreq=1 request in cm', h_conv(2, 1, 1, 'cm'), 3000))
